@@ -55,6 +55,9 @@ def run_job(job):
         root = os.path.join(w, "t")
         os.mkdir(root)
         build(rng, root)
+        # a second root whose entries share key values (extensions, owners, name lengths) with the first one
+        os.mkdir(os.path.join(w, "u"))
+        build(rng, os.path.join(w, "u"))
 
         def run(q):
             res.ev()
@@ -62,6 +65,7 @@ def run_job(job):
 
         for qi in range(job["queries"]):
             keys = rng.sample(KEYS, rng.choice([1, 1, 1, 2]))
+            frm = rng.choice(["t", "t", "t", "t, u", "u, t", "t, u, t/.", "t maxdepth 2, u dfs", "u mindepth 2, t"])
             inner = rng.choice(INNERS)
             where = rng.choice(WHERES)
             wtxt = (" where " + where) if where else ""
@@ -69,7 +73,7 @@ def run_job(job):
             if "count" not in fns and rng.random() < 0.5:
                 fns.append("count")
             # rows: key..., inner  (from fselect itself)
-            q0 = "%s, %s from t%s into list" % (", ".join(keys), inner, wtxt)
+            q0 = "%s, %s from %s%s into list" % (", ".join(keys), inner, frm, wtxt)
             r0 = run(q0)
             if r0.verdict != "ok" or r0.rc != 0 or r0.err:
                 if r0.verdict == "ok":
@@ -98,7 +102,7 @@ def run_job(job):
                 spelled = cols[oi] if rng.random() < 0.7 else str(oi + 1)
                 order = " order by %s%s" % (spelled, " desc" if desc else "")
                 okey = (oi, desc)
-            q = "%s from t%s group by %s%s into list" % (", ".join(cols), wtxt, ", ".join(keys), order)
+            q = "%s from %s%s group by %s%s into list" % (", ".join(cols), frm, wtxt, ", ".join(keys), order)
             r = run(q)
             ctx = {"query": q, "row_query": q0, "groups": {repr(k): v[:20] for k, v in list(groups.items())[:12]}, "result": r.brief()}
             if r.verdict != "ok":
@@ -137,7 +141,7 @@ def run_job(job):
                 continue
             # conservation against the ungrouped aggregate query
             if "count" in fns or "sum" in fns:
-                qa = "count(*), sum(%s) from t%s into list" % (inner, wtxt)
+                qa = "count(*), sum(%s) from %s%s into list" % (inner, frm, wtxt)
                 ra = run(qa)
                 if ra.verdict == "ok" and ra.rc == 0 and not ra.err:
                     tot = ra.rows()
@@ -159,7 +163,7 @@ def run_job(job):
                 if all("'" not in v and "\\" not in v for v in kv):
                     cond = " and ".join(RESTRICT[k](k, v) for k, v in zip(keys, kv))
                     wr = " where %s%s" % ("(%s) and " % where if where else "", cond)
-                    rr = run("%s, %s from t%s into list" % (", ".join(keys), inner, wr))
+                    rr = run("%s, %s from %s%s into list" % (", ".join(keys), inner, frm, wr))
                     same = False
                     if rr.verdict == "ok" and rr.rc == 0 and not rr.err:
                         try:
@@ -168,7 +172,7 @@ def run_job(job):
                         except ValueError:
                             same = False
                     if same:      # the restriction selects exactly this group's entries (otherwise it is C02's business, not ours)
-                        qr = "%s from t%s into list" % (", ".join(cols[len(keys):]), wr)
+                        qr = "%s from %s%s into list" % (", ".join(cols[len(keys):]), frm, wr)
                         ra = run(qr)
                         ctx["restricted_query"] = qr
                         if ra.verdict == "ok":
@@ -199,6 +203,7 @@ def run_job(job):
             for k in keys:
                 res.cover("keys", k)
             res.cover("n_keys", len(keys))
+            res.cover("from", frm)
             if any("" in k for k in groups):
                 res.count("empty_string_key_groups")
             if len(groups) >= 2:
@@ -215,12 +220,12 @@ def main(chk):
     jobs = [{"id": "j%d" % i, "seed": job_seed(chk.seed, "C08", i), "queries": 10 if quick else 20} for i in range(n)]
     chk.run_jobs(jobs, budget_s=300 if quick else 3000)
     return chk.finish(
-        rule="random trees x grouping keys from ext, dir, is_dir, is_file, mode, uid, gid, length(name) (single and pairs) x aggregate lists "
+        rule="random trees (one root, or several roots - one listed twice - whose entries share key values) x grouping keys from ext, dir, is_dir, is_file, mode, uid, gid, length(name) (single and pairs) x aggregate lists "
              "x optional WHERE x optional ORDER BY on a key, an integer aggregate or AVG (asc/desc, explicit or positional). (key, value) "
              "pairs come from `keys, x from t where W`; one group row per distinct key, each aggregate recomputed exactly over that group's "
              "rows, group COUNTs/SUMs add up to the ungrouped query's, one group per query compared cell by cell with the ungrouped aggregate query restricted to `key = value` (only when that restriction returns exactly the group's rows), ordered group rows sorted. Non-trivial = >= 2 groups; distinct by "
              "(keys, functions, where, order, groups).",
         assumptions=["group rows may come in any order unless ORDER BY is given", "numeric order keys compare as numbers, others by code point",
                      "sample statistics of single-row groups are don't-care"],
-        require={"keys": 10, "order_kinds": 6, "conservation_checked": 20, "restricted_compared": 20},
+        require={"from": 6, "keys": 10, "order_kinds": 6, "conservation_checked": 20, "restricted_compared": 20},
     )
